@@ -352,6 +352,12 @@ def compare_states(model, expect):
         return None
     if "exn" in model and "exn" in expect and model["exn"] == expect["exn"]:
         return None
+    if "exn" in model and "exn" in expect and expect["exn"] in model.get("exn_alts", ()):
+        # random transfer, simultaneous round: several winners are defective in different ways and the class of the
+        # exception depends on the order the winners' set is iterated in (hash order in the implementation, listing
+        # order in the model - C08_cand_order_random_transfer_differs); the driver reports the classes met under
+        # the other listing orders
+        return None
     if "fuel" in model and "timeout" in expect:
         # the model's loop ran out of fuel where the implementation's loop did not end within the alarm
         return None
